@@ -556,9 +556,9 @@ def check_scoped_dict(idx: Index, rep: Report) -> None:
 
 
 def check(idx: Index, rep: Report, tier: str) -> str:
-    check_worklist(idx, rep)
-    check_disjoint_set(idx, rep)
-    check_scoped_dict(idx, rep)
+    rep.run(check_worklist, idx, rep)
+    rep.run(check_disjoint_set, idx, rep)
+    rep.run(check_scoped_dict, idx, rep)
     return (
         "Static AST/CFG rules over xdsl/utils/{worklist,disjoint_set,scoped_dict}.py. Decides the structural clauses: "
         "Worklist map/stack pairing, index provenance and tombstone handling on every path; union-find root "
